@@ -19,7 +19,7 @@ class LookupFsDev(fs.fsDev):
         if any(x not in kwds for x in ("major", "minor", "mode")):
             try:
                 st = os.lstat(path)
-            except FileNotFoundError:
+            except (FileNotFoundError, NotADirectoryError):
                 st = None
             if st is None or any(
                 f(st.st_mode) for f in (stat.S_ISREG, stat.S_ISDIR, stat.S_ISFIFO)
